@@ -27,6 +27,8 @@ KEYS = {
     'month(modified)': ('num', lambda e: time.gmtime(e['mtime']).tm_mon),
     'hex(size)': ('str', lambda e: '%x' % e['size']),
     'concat(size, name)': ('str', lambda e: '%d%s' % (e['size'], e['name'])),
+    '-size': ('num', lambda e: -e['size']),                     # a key that begins with a sign or a bracket
+    '(size + 1) * 2': ('num', lambda e: (e['size'] + 1) * 2),
     '1000 - size': ('num', lambda e: 1000 - e['size']),          # literal on the left: written by position only
 }
 POSITIONAL_ONLY = {'1000 - size'}
